@@ -58,6 +58,11 @@ CHECKS["C14"] = dict(
    technique="TLA+ spec Updates.tla checked exhaustively by TLC (Complete, Fate, Monotone) + real update feeds of a real agent judged by the same formulas under local and shuffled remote histories",
    text="TLC explores all histories of inserts/updates/deletes/re-inserts on 2-3 keys with candidates reaching batch_candidates in any order and flushes at any time, and checks that every changed key is notified, the last notification says deleted exactly when the row is gone, and delivered causal lengths never decrease. The real /v1/updates feed is read with the client library while local transactions commit and a second node's transactions are merged out of order and duplicated; Complete and Fate are evaluated on the collected notifications against the final table.",
    note="cache eviction (2000->1000) is outside the claim (TLC shows a stale notification with a tiny cache + reordering); Monotone is only checkable on the model")
+CHECKS["C13"] = dict(
+   level="model_checking", engine="sublifecycle", design="§6/C13",
+   technique="TLA+ spec SubLifecycle.tla checked exhaustively by TLC; real agents stopped gracefully (shutdown order of command/agent.rs) or abruptly (data directory copied while running) and restarted, judged by the property",
+   text="TLC explores creation, initial query, changes whose match step runs later, trip, drop_handles, drain, marker write, process death at any point and start, and checks that only subscriptions marked completed are restored, that the marker implies nothing is unmatched, and that everything else is removed at start. On real agents the graceful path must leave state 'completed', restore the same id with rows equal to the query, a change log ending at the last produced change and new ids continuing at +1; the abrupt path must not restore, must remove the directory and answer 404.",
+   note="graceful runs keep the last write 300 ms away from the trip (known finding S7 region; probed at 0 ms); process death, not power loss")
 CHECKS.update({
  "C01": repl("§6/C01", "TLC checks NoInvention / NoLoss (a node that claims a version has every change of it that has not lost globally) / Converged / MergeOfAll on every behaviour of small instances (any delivery order, duplication, re-cut, loss, batching, sync serving, restart); seeded walks over 2-3 real agents are accepted only if every step is the specification's step, and the final drain must reach quiescence with byte-identical tables equal to the merge of all acknowledged transactions."),
  "C03": repl("§6/C03", "TLC checks Atomic (nothing of a remote version visible before the step that applies it), CoveredIsPending and BufferedHaveRecord on the model; real walks with re-cut, overlapping, duplicated chunks from origin and relays in batches are validated step by step, the harness observes the apply trigger exactly when the specification says the version is covered, and the drain must resolve every partial version."),
@@ -109,6 +114,7 @@ def main():
             {"name": "subcatchup", "path": "specs/SubCatchUp.tla + harness/src/subrace.rs + lib/prop_c12.py", "serves_properties": ["C12"], "kind_free_text": "TLA+ model checked by TLC; schedule forcing with pause points; stream oracle"},
             {"name": "matcher", "path": "specs/Matcher.tla + harness/src/matchwalk.rs + lib/prop_c11.py", "serves_properties": ["C11"], "kind_free_text": "TLA+ model checked by TLC; differential oracle against SQLite on real subscriptions"},
             {"name": "updates", "path": "specs/Updates.tla + harness/src/updwalk.rs + lib/prop_c14.py", "serves_properties": ["C14"], "kind_free_text": "TLA+ model checked by TLC; real feed judged"},
+            {"name": "sublifecycle", "path": "specs/SubLifecycle.tla + harness/src/sublife.rs + lib/prop_c13.py", "serves_properties": ["C13"], "kind_free_text": "TLA+ model checked by TLC; real stop/restart scenarios judged"},
             {"name": "replication", "path": "specs/Replication.tla + specs/TraceReplication.tla + specs/MCReplication*.tla + harness/src/sim.rs + lib/repl.py + lib/repl_check.py", "serves_properties": ["C01", "C03", "C05", "C06", "C07"], "kind_free_text": "TLA+ model checked by TLC; recorded walks of real agents validated against the spec; counter-examples replayed on real agents"},
             {"name": "bookkeeping", "path": "specs/Bookkeeping.tla + specs/MCBookkeeping.tla + harness/src/bk.rs + lib/prop_c02.py", "serves_properties": ["C02"], "kind_free_text": "TLA+ model checked by TLC; all edges replayed on the real crates"},
         ],
